@@ -314,8 +314,10 @@ func judgeWireServer(secret []byte, bits int) {
 
 var wireServerIDs = []string{"", "-", "abcdefghij0123456789", " x ", "名前", strings.Repeat("s", 100)}
 
+// wireSecret: shared secrets of the three AES key sizes (a client may send any of them: aes.NewCipher and Java's
+// SecretKeySpec accept 16, 24 and 32 bytes), contents salted by index.
 func wireSecret(i int) []byte {
-	s := make([]byte, 16)
+	s := make([]byte, []int{16, 24, 32}[i%3])
 	for j := range s {
 		s[j] = byte(i*31 + j*(i+1))
 	}
@@ -359,7 +361,7 @@ func wiring(repeats, secrets int) int64 {
 		})
 	})
 	rep.Count("wire_login_flows_driven", int64(len(jobs)))
-	rep.Extra("wire_menu", fmt.Sprintf("bot.Client.JoinServerWithOptions: %d server ids x key bits {1024,2048} x %d repeats (secret drawn by go-mc, recovered by decryption); auth.Encrypt: %d 16-byte secrets x key bits {1024,2048}", len(wireServerIDs), repeats, secrets))
+	rep.Extra("wire_menu", fmt.Sprintf("bot.Client.JoinServerWithOptions: %d server ids x key bits {1024,2048} x %d repeats (secret drawn by go-mc, recovered by decryption); auth.Encrypt: %d secrets of 16/24/32 bytes x key bits {1024,2048}", len(wireServerIDs), repeats, secrets))
 	if n := atomic.LoadInt64(&wireIncomplete); n > 0 {
 		rep.Cap("%d of %d driven login flows did not reach the session-server request (see wire_incomplete_* counters); for those the wiring of the session hash was not observed", n, len(jobs))
 	}
